@@ -12,16 +12,17 @@ VARIABLES hist, nadd, nbad, ndup
 mcvars == <<vars, hist, nadd, nbad, ndup>>
 
 CfgFromFile == JsonDeserialize(IOEnv.DESEG_CFG)
+MaxLen == MaxAdds + 8
 
 MCInit == InitWith(CfgFromFile) /\ hist = <<>> /\ nadd = 0 /\ nbad = 0 /\ ndup = 0
 
 Delivered(t, idx, k) == \E i \in 1..Len(hist) : hist[i].k = "Add" /\ hist[i].tree = t /\ hist[i].idx = idx /\ hist[i].kind = k
 
 MCAdd(t, idx, k) ==
-  /\ nadd < MaxAdds
+  /\ nadd < MaxAdds /\ Len(hist) < MaxLen
+  /\ idx < NSeg(t)
   /\ k # "honest" => nbad < MaxBad
   /\ (k = "honest" /\ Delivered(t, idx, k)) => ndup < MaxDup
-  /\ (k = "honest") => idx < NSeg(t)
   /\ AddSegment(t, idx, k)
   /\ hist' = Append(hist, [k |-> "Add", tree |-> t, idx |-> idx, kind |-> k])
   /\ nadd' = nadd + 1
@@ -32,14 +33,12 @@ MCApply == ApplyNext /\ hist' = Append(hist, [k |-> "Apply"]) /\ UNCHANGED <<nad
 MCFinalize == Finalize /\ hist' = Append(hist, [k |-> "Finalize"]) /\ UNCHANGED <<nadd, nbad, ndup>>
 
 MCNext == \/ \E t \in Trees, idx \in 0..3, k \in Kinds : idx <= NSeg(t) /\ MCAdd(t, idx, k)
-          \/ (Len(hist) < 60 /\ MCApply)
+          \/ (Len(hist) < MaxLen /\ MCApply)
           \/ MCFinalize
 MCSpec == MCInit /\ [][MCNext]_mcvars
 
 View == vars
 
-Done == finalised # "no" \/ (nadd = MaxAdds /\ Len(hist) >= MaxAdds + 3)
+Done == finalised # "no" \/ Len(hist) >= MaxLen
 Emit == Done => PrintT(<<"ORDER", ToJson(hist)>>)
-\* stop a simulated behaviour once it has been emitted
-NotDone == ~Done
 =============================================================================
